@@ -195,12 +195,15 @@ func (g *SessionManager) getXid(msg interface{}) string {
 	} else if tmpMsg, ok := msg.(message.BranchReportRequest); ok {
 		xid = tmpMsg.Xid
 	} else {
-		msgType := reflect.TypeOf(msg)
 		msgValue := reflect.ValueOf(msg)
-		if msgType.Kind() == reflect.Ptr {
+		if msgValue.Kind() == reflect.Ptr {
 			msgValue = msgValue.Elem()
 		}
-		xid = msgValue.FieldByName("Xid").String()
+		if msgValue.Kind() == reflect.Struct {
+			if f := msgValue.FieldByName("Xid"); f.IsValid() && f.Kind() == reflect.String {
+				xid = f.String()
+			}
+		}
 	}
 	return xid
 }
